@@ -29,6 +29,7 @@ class Careful:
     def __init__(self, ctx):
         self._ctx = ctx
         self.traces = []
+        self.unread = []          # (pass 5) outputs / values the rule needs that the evaluation left undetermined: nothing derived from them is a verdict
 
     def __getattr__(self, k):
         return getattr(self._ctx, k)
@@ -46,6 +47,8 @@ class Careful:
         lost = self.lost()
         if lost:
             return self._ctx.error(instance + " [not decided: an effect on an array was not followed]", where, {"compared": detail, "not followed": lost[:4]})
+        if self.unread:
+            return self._ctx.error(instance + " [not decided: a value the rule reads was not determined]", where, {"compared": detail, "not determined": self.unread[:4]})
         return self._ctx.fail(instance, where, detail, key)
 
     def check(self, cond, instance, where=None, detail=None, key=None, nontrivial=True):
@@ -341,6 +344,10 @@ def r5_binify_guards(ctx):
                 added = None
             if not same(added, Sb0.E(f"{pb[0]}[_i0, 2]")):
                 bad = f"value added: {short(added)}"
+                # wrong only when it is recognisably another entry of the cycle table (another column, another row); anything else is not read
+                b_, ix_ = peel(added) if added is not None and not is_unknown(added) and not isinstance(added, (tuple, str)) else (None, [])
+                if not (b_ is not None and sym_of(b_) == pb[0] and len(ix_) == 2 and all(not isinstance(x, str) and (const_of(x) is not None or sym_of(x) is not None) for x in ix_)):
+                    shape = False
                 break
         ok = bad is None and roles.get(True) == roles.get(False)
         if not shape:
@@ -527,7 +534,16 @@ def r5_binify_guards(ctx):
         shape = ok
         if ok:
             for kw, which in (("index", "mean"), ("columns", "amp")):
-                u = app(df[0][2][kw], "comp")
+                lab = df[0][2][kw]
+                for _ in range(3):
+                    # pd.Index(labels, name=...) / list(labels) / np.array(labels): the same labels (the axis name is not part of this obligation)
+                    w = app(lab) if lab is not None and not is_unknown(lab) and not isinstance(lab, (tuple, str)) else None
+                    if w is not None and w[0] in ("call:pd.Index", "call:Index", "call:pandas.Index", "call:np.array", "call:np.asarray"):
+                        pos_, kw_ = call_args(w)
+                        lab = pos_[0] if pos_ else kw_.get("data")
+                        continue
+                    break
+                u = app(lab, "comp") if lab is not None and not is_unknown(lab) and not isinstance(lab, (tuple, str)) else None
                 e = app(u[1][0], "call:.format") if u is not None else None
                 edges = F.fn("idx", G[which], F.const(0))
                 if e is None or len(e[1]) != 3:
@@ -545,8 +561,26 @@ def r5_binify_guards(ctx):
                                 shape = False
                     break
                 for rt, (first, last) in ((True, "(]"), (False, "[)")):
-                    fv = _under(e[1][0], Facts(truths=[(Sf0.E("right"), rt)]))
+                    ff = Facts(truths=[(Sf0.E("right"), rt)])
+                    fv = _under(e[1][0], ff)
                     sp = str_parts(fv)
+                    for _ in range(4):
+                        # parts that are themselves strings chosen by `right` (the bracket characters picked by a conditional expression)
+                        if sp is None or not any(not isinstance(x, str) and app(x, "ite") is not None for x in sp):
+                            break
+                        flat = []
+                        for x in sp:
+                            xs = str_parts(_under(x, ff)) if not isinstance(x, str) and app(x, "ite") is not None else [x]
+                            flat += xs if xs is not None else [x]
+                        merged = []
+                        for x in flat:
+                            if isinstance(x, str) and merged and isinstance(merged[-1], str):
+                                merged[-1] += x
+                            else:
+                                merged.append(x)
+                        if len(merged) == len(sp) and all(a_ is b_ for a_, b_ in zip(merged, sp)):
+                            break
+                        sp = merged
                     if sp is None or not isinstance(sp[0], str) or not isinstance(sp[-1], str) or not sp[0] or not sp[-1]:
                         shape = False          # the format's first / last character is not a literal this rule can read
                         det = {"label form (not read)": short(fv), "right": rt}
@@ -800,6 +834,13 @@ def _masks(S, v, depth=3):
             ini = fl[1][1]
         t0 = truth(ini, None) if ini is not None and not isinstance(ini, tuple) else None
         cs = S.cells(s)
+        if len(cs) == 2 and not any(c[4]["guard"] or c[4].get("aug") or c[4]["loops"] or is_unknown(c[1]) or is_unknown(c[2]) or isinstance(c[2], tuple) for c in cs):
+            # (pass 5) pv = np.empty(n, bool); pv[0] = True; pv[1:] = X  (in either order; whatever the array was created with is overwritten)
+            first = [c for c in cs if const_of(c[1]) == 0 and truth(c[2], None) is not None and (const_of(c[2]) is not None or sym_of(c[2]) in ("True", "False"))]
+            rest = [c for c in cs if same(c[1], F.fn("slice", F.const(1), NONE, NONE))]
+            if len(first) == 1 and len(rest) == 1:
+                mp[s] = F.fn("hcat", F.const(1 if truth(first[0][2], None) else 0), need(_masks(S, rest[0][2], depth - 1)))
+                continue
         if t0 is None or len(cs) != 1 or cs[0][4]["guard"] or cs[0][4].get("aug") or is_unknown(cs[0][1]) or is_unknown(cs[0][2]) or isinstance(cs[0][2], tuple):
             continue
         if len(cs[0][4]["loops"]) == 1:
@@ -1214,6 +1255,10 @@ def _fde(ctx, absacce, plain=True):
              env={"resp": F.sym(repr("absacce" if absacce else "pvelo"))})
     out = {}
     ns = S.calls("SimpleNamespace", "types.SimpleNamespace")
+    if len(ns) > 1:
+        # records built by helpers (a per-frequency result) are SimpleNamespace calls too: the result is the one made in fdepsd's own body
+        own = [c for c in ns if fn.lineno <= getattr(c[3], "lineno", -1) <= fn.end_lineno]
+        ns = own if len(own) == 1 else ns
     if len(ns) != 1 or len(S.returns()) != 1 or S.tr.raises:
         raise AnchorError("fdepsd: one return of SimpleNamespace(...)")
     for k, v in ns[0][2].items():
@@ -1232,6 +1277,8 @@ def _fde(ctx, absacce, plain=True):
     for k in ("psd", "peakamp", "di_sig", "di_test", "var_test", "bincount", "count", "binamps", "srs"):
         v = S.deref(out.get(k))
         if v is None or is_unknown(v):
+            if hasattr(ctx, "unread"):
+                ctx.unread.append(f"fdepsd: output `{k}` = {v!r}"[:200])
             continue
         for nm, a, x in apps(v, "ite") + apps(v, "opaque-test"):
             cond = a[0] if a and not isinstance(a[0], str) else None
@@ -1253,6 +1300,9 @@ def _strip(S, v):
             pos, kw = call_args(u)
             v = pos[0] if pos else kw.get("data")
             continue
+        if u is not None and u[0] == "transposed" and len(u[1]) == 1 and not isinstance(u[1][0], str):
+            v = u[1][0]
+            continue
         break
     return v
 
@@ -1265,6 +1315,9 @@ def _frame(S, v):
         return None
     pos, kw = call_args(u)
     data = pos[0] if pos else kw.get("data")
+    tu = app(data, "transposed") if data is not None and not is_unknown(data) and not isinstance(data, (tuple, str)) else None
+    if tu is not None:
+        data = tu[1][0]           # the orientation of a 2-D table is read off its stores below
     cols = kw.get("columns")
     ct = app(cols, "tuple") if cols is not None else None
     labels = None
@@ -1289,6 +1342,28 @@ def _frame(S, v):
     t = app(data, "tuple")
     if t is not None and labels is not None and len(t[1]) == len(labels):
         return dict(zip(labels, t[1]))
+    # (pass 5) one 2-D table filled entry by entry, one row (T[k, j] = ..., handed over transposed) or one column (T[j, k] = ...) per label:
+    # the orientation is read off the stores (pandas raises when the number of columns does not match the labels)
+    sd = sym_of(data) if data is not None and not is_unknown(data) and not isinstance(data, (tuple, str)) else None
+    if sd is not None and labels is not None and S.cells(sd):
+        kinds = set()
+        for c in S.cells(sd):
+            if is_unknown(c[1]):
+                return None
+            _, cix = peel(F.fn("idx", F.sym(sd), c[1]))
+            if len(cix) != 2:
+                return None
+            k0, k1 = const_of(cix[0]), const_of(cix[1])
+            if k0 is not None and k1 is None and 0 <= k0 < len(labels):
+                kinds.add("rows")
+            elif k1 is not None and k0 is None and 0 <= k1 < len(labels):
+                kinds.add("cols")
+            else:
+                return None
+        if kinds == {"rows"}:
+            return {lb: F.fn("idx", F.sym(sd), F.const(k)) for k, lb in enumerate(labels)}
+        if kinds == {"cols"}:
+            return {lb: F.fn("idx", F.sym(sd), F.fn("tuple", F.fn("slice", NONE, NONE, NONE), F.const(k))) for k, lb in enumerate(labels)}
     return None
 
 
@@ -1321,6 +1396,44 @@ def _element(S, v):
         cs = [c for c in S.cells(s) if sym_of(c[1]) == "_i0" and len(c[4]["loops"]) == 1]
         if len(cs) == len(S.cells(s)) == 1:
             return cs[0][2], cs[0]
+        return None, None
+    # (pass 5) the vector is a row of a shared table (`Df4, Df8, Df12 = table` / table[0]): the stores table[(k, _i0)] = ... of that row; stores into
+    # other rows (another constant first index) do not touch it, any other store into the table makes the row's content unread
+    b, pre = peel(v) if v is not None and not is_unknown(v) and not isinstance(v, (tuple, str)) else (None, [])
+    sb = sym_of(b) if b is not None else None
+    if sb is not None and len(pre) == 2 and _is_full(pre[0]) and const_of(pre[1]) is not None and S.cells(sb):
+        # a column T[:, k] of a table filled by T[j, k] = ...
+        mine = []
+        for c in S.cells(sb):
+            if is_unknown(c[1]):
+                return None, None
+            _, cix = peel(F.fn("idx", F.sym(sb), c[1]))
+            if len(cix) == 2 and const_of(cix[1]) is not None and const_of(cix[0]) is None:
+                if const_of(cix[1]) != const_of(pre[1]):
+                    continue
+                if sym_of(cix[0]) == "_i0" and len(c[4]["loops"]) == 1 and not c[4]["guard"] and not c[4]["aug"]:
+                    mine.append(c)
+                    continue
+            return None, None
+        if len(mine) == 1:
+            return mine[0][2], mine[0]
+        return None, None
+    if sb is not None and pre and all(const_of(p) is not None for p in pre) and S.cells(sb):
+        mine = []
+        for c in S.cells(sb):
+            if is_unknown(c[1]):
+                return None, None
+            _, cix = peel(F.fn("idx", F.sym(sb), c[1]))
+            if len(cix) >= len(pre) and all(const_of(q) is not None for q in cix[:len(pre)]):
+                if any(const_of(q) != const_of(p) for p, q in zip(pre, cix)):
+                    continue            # another row
+                rest = cix[len(pre):]
+                if len(rest) == 1 and sym_of(rest[0]) == "_i0" and len(c[4]["loops"]) == 1 and not c[4]["guard"] and not c[4]["aug"]:
+                    mine.append(c)
+                    continue
+            return None, None
+        if len(mine) == 1:
+            return mine[0][2], mine[0]
         return None, None
     u = app(v, "comp")
     if u is not None:
@@ -2077,6 +2190,33 @@ def r7_amplitude_scaling(ctx):
         ctx.error(f"scale-invariance rule bound to {n} amplitude comparisons in fdepsd and _dofde (4 expected: the rule does not see the comparisons it is about)", FDE + ":1")
 
 
+def _top_loop(fn, node):
+    """line of the outermost for / while statement of `fn` that contains `node`; 0 when the node is in fn but in no loop; None when the node is not
+    in fn's own text (code of an inlined helper, a synthesised node)"""
+    ln = getattr(node, "lineno", None)
+    if ln is None or not (fn.lineno <= ln <= fn.end_lineno):
+        return None
+    stack = list(fn.body)
+    while stack:
+        st = stack.pop()
+        if not (st.lineno <= ln <= getattr(st, "end_lineno", st.lineno)):
+            continue
+        if isinstance(st, (ast.For, ast.While)):
+            return st.lineno
+        if isinstance(st, (ast.FunctionDef, ast.AsyncFunctionDef, ast.ClassDef)):
+            return None
+        for f_ in ("body", "orelse", "finalbody", "handlers"):
+            for x in getattr(st, f_, []) or []:
+                if isinstance(x, ast.ExceptHandler):
+                    stack += x.body
+                elif isinstance(x, ast.stmt):
+                    stack.append(x)
+        if isinstance(st, ast.Match):
+            for cs in st.cases:
+                stack += cs.body
+    return 0
+
+
 def _homogeneous_tests(ctx, S, D, q, fn):
     n = 0
     where, when = {}, {}
@@ -2093,6 +2233,9 @@ def _homogeneous_tests(ctx, S, D, q, fn):
         # the arrays a comparison reads are judged with the content they had when it was made (a row of levels that is re-scaled afterwards
         # still held the unit levels)
         at = when.get(repr(cmpv))
+        born = getattr(S.tr, "born", {}).get((cmpv.n.key(), cmpv.d.key()))
+        if born is not None and (at is None or born < at):
+            at = born           # formed (in a helper, a comprehension) before the statement that uses it: its operands were read by then
         da, db = D.asof(a, at), D.asof(b, at)
         zero = (Fraction(0), ANY)
         if da in zero and db in zero:
@@ -2103,6 +2246,27 @@ def _homogeneous_tests(ctx, S, D, q, fn):
             ctx.error(f"{q}: degree of `{short(cmpv, 160)}` in the signal amplitude", node, {"left": _fmt_deg(da), "right": _fmt_deg(db), "why": [short(p[0]) for p in D.problems[:3]]})
             continue
         ok = da is ANY or db is ANY or da == db
+        exact = born is not None and at == born and getattr(S.tr, "born_exact", {}).get((cmpv.n.key(), cmpv.d.key())) is True
+        if not ok and not exact:
+            # (pass 5) a value does not say *when* the arrays in it were read: `levels = B[j] * amax; B[j] = levels; ... amp >= levels[k]` reads the row
+            # before it was re-scaled although the comparison is made afterwards.  When the operands agree under the content the arrays had
+            # before one of the earlier stores into an array they read, the verdict depends on the read time - not decided, never a violation
+            # (only a store made in the same pass through the same outermost loop can come between a read and the comparison; a loop that
+            # was finished before the comparison's loop started cannot; code inlined from helpers has no place in fdepsd's own loops: unknown)
+            read = {sym_of(peel(x)[0]) for o in (a, b) for x in walk(o)} - {None}
+            here = _top_loop(fn, node)
+            early = sorted({cx["seq"] for c, cx in zip(S.tr.cells, S.tr.cellx) if c[0] in read and (at is None or cx["seq"] <= at)
+                            and (here is None or _top_loop(fn, c[3]) in (None, here))})
+            amb = False
+            for t in early:
+                ea, eb = D.asof(a, t - 1), D.asof(b, t - 1)
+                if ea is not None and eb is not None and (ea is ANY or eb is ANY or ea == eb):
+                    amb = True
+                    break
+            if amb:
+                ctx.error(f"{q}: degree of `{short(cmpv, 160)}` in the signal amplitude", node,
+                          {"left": _fmt_deg(da), "right": _fmt_deg(db), "why": "the operands read an array that is re-scaled in between; with its earlier content both sides agree"})
+                continue
         ctx.check(ok, f"{q}: the comparison `{short(cmpv, 110)}` is scale-invariant (both sides have the same degree in the signal amplitude, or one side is 0)", node,
                   None if ok else {"degree of the left side": _fmt_deg(da), "degree of the right side": _fmt_deg(db), "comparison": short(cmpv),
                                    "consequence": "the branch taken depends on the units of the input signal, so the outputs no longer scale with amplitude^2"})
